@@ -89,6 +89,8 @@ func main() {
 		if err != nil {
 			panic(err)
 		}
+		x.sh.Add(0, rulesh.CoqConsts(9999999))
+		x.rep.CorrCases++
 	}
 	fm, im, hm, bm := rulesh.FlowMod(), rulesh.IsoMod(), rulesh.HotMod(), rulesh.BrkMod()
 	one := func(id int, corr bool) {
